@@ -87,6 +87,50 @@ func factsHashring() {
 	emitStr("ketamaLoopCond", "pkg/receive/hashring.go calculateSectionReplicas: condition of the replica loop", cond)
 	emitStr("ketamaLapCheck", "pkg/receive/hashring.go calculateSectionReplicas: condition of the first statement of the replica loop (lap check)", lap)
 	emitList("ketamaSkipCounter", "pkg/receive/hashring.go calculateSectionReplicas: control skeleton of the replica loop and every use of the skip counter", skel)
+	skipAZ := "unknown"
+	if loop != nil {
+		skipAZ = firstIfCond(loop.Body, "sizeOfLeastOccupiedAZ")
+	}
+	emitStr("ketamaSkipAZ", "pkg/receive/hashring.go calculateSectionReplicas: the zone rule of the replica loop", skipAZ)
+
+	// ---- C18: ketamaHashring.GetN and simpleHashring.GetN
+	kget := fn(f, "ketamaHashring", "GetN")
+	var kg []string
+	if b := body(kget); b != nil {
+		ast.Inspect(b, func(n ast.Node) bool {
+			switch x := n.(type) {
+			case *ast.FuncLit:
+				for _, st := range x.Body.List {
+					if r, ok := st.(*ast.ReturnStmt); ok && len(r.Results) == 1 {
+						kg = append(kg, text(r.Results[0]))
+					}
+				}
+				return false
+			case *ast.IfStmt:
+				if strings.Contains(text(x.Cond), "numSections") {
+					kg = append(kg, text(x.Cond))
+				}
+			case *ast.AssignStmt:
+				if len(x.Lhs) == 1 && text(x.Lhs[0]) == "endpointIndex" && len(x.Rhs) == 1 {
+					kg = append(kg, text(x.Rhs[0]))
+				}
+			}
+			return true
+		})
+	}
+	emitList("ketamaGetN", "pkg/receive/hashring.go ketamaHashring.GetN: search predicate, wrap test, replica lookup", kg)
+	sidx := "unknown"
+	if b := body(fn(f, "simpleHashring", "GetN")); b != nil {
+		ast.Inspect(b, func(n ast.Node) bool {
+			if ix, ok := n.(*ast.IndexExpr); ok && text(ix.X) == "s" {
+				sidx = text(ix.Index)
+				return false
+			}
+			return true
+		})
+	}
+	emitStr("simpleGetNIndex", "pkg/receive/hashring.go simpleHashring.GetN: the index expression", sidx)
+
 	emitStr("ketamaTooFew", "pkg/receive/hashring.go newKetamaHashring: the endpoint-count test",
 		firstIfCond(body(fn(f, "", "newKetamaHashring")), "replicationFactor"))
 }
